@@ -22,9 +22,14 @@ pub enum Flavour {
   MpmcUnbounded,
   MpmcRendezvous,
   Oneshot,
+  /// experimental lock-free (Vyukov ring) bounded MPMC, `fibre::mpmc_exp` (the physical ring is a power of two; the logical capacity is the requested one)
+  MpmcExp,
+  /// broadcast spmc ring: every receiver sees every value. Not in `ALL_FLAVOURS` (different delivery
+  /// semantics); used by the stepper's broadcast mode.
+  Spmc,
 }
 
-pub const ALL_FLAVOURS: [Flavour; 9] = [
+pub const ALL_FLAVOURS: [Flavour; 10] = [
   Flavour::SpscBounded,
   Flavour::SpscRendezvous,
   Flavour::MpscBounded,
@@ -34,6 +39,7 @@ pub const ALL_FLAVOURS: [Flavour; 9] = [
   Flavour::MpmcUnbounded,
   Flavour::MpmcRendezvous,
   Flavour::Oneshot,
+  Flavour::MpmcExp,
 ];
 
 impl Flavour {
@@ -48,16 +54,18 @@ impl Flavour {
       Flavour::MpmcUnbounded => "mpmc_unbounded",
       Flavour::MpmcRendezvous => "mpmc_rendezvous",
       Flavour::Oneshot => "oneshot",
+      Flavour::MpmcExp => "mpmc_exp",
+      Flavour::Spmc => "spmc",
     }
   }
   pub fn from_name(s: &str) -> Option<Flavour> {
-    ALL_FLAVOURS.iter().copied().find(|f| f.name() == s)
+    ALL_FLAVOURS.iter().copied().chain([Flavour::Spmc]).find(|f| f.name() == s)
   }
   pub fn multi_producer(self) -> bool {
-    !matches!(self, Flavour::SpscBounded | Flavour::SpscRendezvous)
+    !matches!(self, Flavour::SpscBounded | Flavour::SpscRendezvous | Flavour::Spmc)
   }
   pub fn multi_consumer(self) -> bool {
-    matches!(self, Flavour::MpmcBounded | Flavour::MpmcUnbounded | Flavour::MpmcRendezvous)
+    matches!(self, Flavour::MpmcBounded | Flavour::MpmcUnbounded | Flavour::MpmcRendezvous | Flavour::MpmcExp | Flavour::Spmc)
   }
   pub fn rendezvous(self) -> bool {
     matches!(self, Flavour::SpscRendezvous | Flavour::MpscRendezvous | Flavour::MpmcRendezvous)
@@ -66,7 +74,7 @@ impl Flavour {
     matches!(self, Flavour::MpscUnbounded | Flavour::MpmcUnbounded)
   }
   pub fn bounded(self) -> bool {
-    matches!(self, Flavour::SpscBounded | Flavour::MpscBounded | Flavour::MpmcBounded)
+    matches!(self, Flavour::SpscBounded | Flavour::MpscBounded | Flavour::MpmcBounded | Flavour::MpmcExp | Flavour::Spmc)
   }
   pub fn has_batch(self) -> bool {
     self.bounded() || self.unbounded()
@@ -74,6 +82,11 @@ impl Flavour {
   pub fn oneshot(self) -> bool {
     self == Flavour::Oneshot
   }
+  /// every receiver obtains every value (clone starts at the parent's position)
+  pub fn broadcast(self) -> bool {
+    self == Flavour::Spmc
+  }
+
 }
 
 // ------------------------------------------------------------------------------------------
@@ -473,6 +486,12 @@ chan_adapters!(
   batch = yes, clone_tx = yes, clone_rx = yes, stream = yes, meta = full
 );
 chan_adapters!(
+  MpmcXSTx, MpmcXATx, MpmcXSRx, MpmcXARx,
+  fibre::mpmc_exp::Sender<Val>, fibre::mpmc_exp::AsyncSender<Val>,
+  fibre::mpmc_exp::Receiver<Val>, fibre::mpmc_exp::AsyncReceiver<Val>,
+  batch = yes, clone_tx = yes, clone_rx = yes, stream = yes, meta = opt
+);
+chan_adapters!(
   MpmcUSTx, MpmcUATx, MpmcUSRx, MpmcUARx,
   fibre::mpmc::UnboundedSyncSender<Val>, fibre::mpmc::UnboundedAsyncSender<Val>,
   fibre::mpmc::UnboundedSyncReceiver<Val>, fibre::mpmc::UnboundedAsyncReceiver<Val>,
@@ -601,6 +620,10 @@ pub fn make(fl: Flavour, cap: usize, async_ctor: bool) -> (TxH, RxH) {
       let (t, r) = fibre::oneshot::oneshot::<Val>();
       (TxH::S(Box::new(OneshotTx(Some(t)))), RxH::A(Box::new(OneshotRx(r))))
     }
+    Flavour::MpmcExp => pair!(
+      fibre::mpmc_exp::bounded::<Val>(cap), fibre::mpmc_exp::bounded_async::<Val>(cap),
+      MpmcXSTx, MpmcXATx, MpmcXSRx, MpmcXARx),
+    Flavour::Spmc => make_spmc(cap, async_ctor),
   }
 }
 
